@@ -259,6 +259,14 @@ func runC19(c c19Case, st *hx.Stats) error {
 	os.WriteFile(filepath.Join(w.rootB, "markerB"), []byte("b"), 0o644)
 	// the default root "." = cwd must be distinguishable too
 	os.WriteFile(filepath.Join(w.cwd, "markerCWD"), []byte("c"), 0o644)
+	// the working directory may hold anything, also directories named like the program's own sub-commands
+	// (every second case; they must mean nothing)
+	if (len(c.Setting)+len(c.Assigns)+len(c.Assigns[0].Channel))%2 == 0 {
+		for _, d := range []string{"server", "decrypt", "make-iso"} {
+			os.MkdirAll(filepath.Join(w.cwd, d), 0o755)
+			os.WriteFile(filepath.Join(w.cwd, d, "markerCMD"), []byte("x"), 0o644)
+		}
+	}
 	args := []string{"server"}
 	var env []string
 	ini := map[string][]string{} // file -> lines
